@@ -92,9 +92,44 @@ def by_signature(F, inputs, output):
 
 
 def qname_splitter(F):
-    """the function that splits a QName into (local name, prefix): `fn(&str) -> (&str, Option<&str>)`, unique by signature"""
+    """the function that splits a QName into (local name, prefix): `fn(&str) -> (&str, Option<&str>)`, unique by signature; the
+    pair may also be a struct of the crate with exactly those two members (see qname_parts)"""
     c = by_signature(F, ["&str"], "(&str, std::option::Option<&str>)")
-    return c[0] if len(c) == 1 else None
+    if len(c) == 1:
+        return c[0]
+    if not c:
+        import re
+        pairs = _qname_structs(F)
+        c = sorted(f["path"] for f in _fn_items(F) if [_norm_ty(x) for x in f["inputs"]] == ["&str"]
+                   and re.sub(r"<.*$", "", _norm_ty(f["output"])) in pairs)
+        if len(c) == 1:
+            return c[0]
+    return None
+
+
+def _qname_structs(F):
+    """{struct path: (member holding the local name, member holding the prefix)} of the structs that are a (&str, Option<&str>) pair"""
+    out = {}
+    for st in F.lib.items.get("structs", []):
+        fs = st["variants"][0]["fields"] if st.get("variants") else []
+        if len(fs) == 2:
+            tys = {_norm_ty(x["ty"]): x["name"] for x in fs}
+            if set(tys) == {"&str", "std::option::Option<&str>"}:
+                out[st["path"]] = (tys["&str"], tys["std::option::Option<&str>"])
+    return out
+
+
+def qname_parts(F):
+    """(key of the local name, key of the prefix) in what the QName splitter returns: ("0", "1") for the tuple, the member names
+    for a struct"""
+    import re
+    sp = qname_splitter(F)
+    for f in _fn_items(F):
+        if f["path"] == sp:
+            st = _qname_structs(F).get(re.sub(r"<.*$", "", _norm_ty(f["output"])))
+            if st:
+                return st
+    return ("0", "1")
 
 
 # ---- readers of complex content ---------------------------------------------------------------------------------------------
@@ -117,6 +152,31 @@ def _string_literals(F, path):
     return {x.get("v") for x in Hh.exprs(nb["value"]) if x.get("k") == "Lit" and x.get("lit") == "str"}
 
 
+def field_list_holders(F):
+    """{struct path (with generics erased as `_norm_ty` gives them): name of its Vec<Field> member} of the structs of the crate,
+    other than the converted types themselves, that carry a field list being built (a collector / builder handed from function to
+    function instead of the bare `&mut Vec<Field>`)"""
+    def f():
+        out = {}
+        for st in F.lib.items.get("structs", []):
+            if st["path"].endswith(("ComplexProps", "ElementProps", "SimpleProps")) or not st.get("variants"):
+                continue
+            fl = [x["name"] for x in st["variants"][0]["fields"] if _norm_ty(x["ty"]) == "std::vec::Vec<model::field::Field>"]
+            if len(fl) == 1:
+                out[st["path"]] = fl[0]
+        return out
+    return _cache(F, "field_list_holders", f)
+
+
+def holder_of(F, ty):
+    """(struct path, list member) when the type is (a reference to) a field-list holder"""
+    t = _norm_ty(ty).replace("&mut", "").replace("&", "")
+    import re as _re
+    t = _re.sub(r"<.*$", "", t)
+    h = field_list_holders(F)
+    return (t, h[t]) if t in h else None
+
+
 def complex_readers(F):
     """{path: role} of the functions that turn a complexType into ComplexProps: the trait entry and the crate-local functions it
     reaches that receive an XML node and either return ComplexProps or append to a `Vec<Field>`. Roles:
@@ -132,6 +192,7 @@ def complex_readers(F):
         g = scans.call_graph(F.lib)
         reach = scans.reachable(g, [entry])
         readers, appenders = [], []
+        holders = field_list_holders(F)
         for p in sorted(reach):
             s = _sig(F, p)
             if s is None or p == entry or not _local_fn(F, p):
@@ -139,17 +200,19 @@ def complex_readers(F):
             ins = [_norm_ty(x) for x in s["inputs"]]
             if not any("roxmltree::Node<" in x for x in ins):
                 continue
-            if any(x == "&mutstd::vec::Vec<model::field::Field>" for x in ins) or "Vec<model::field::Field>" in _norm_ty(s["output"]):
-                appenders.append(p)     # fills a field list handed to it, or returns one
+            if any(x == "&mutstd::vec::Vec<model::field::Field>" for x in ins) or "Vec<model::field::Field>" in _norm_ty(s["output"]) \
+                    or any(x.startswith("&mut") and holder_of(F, x) for x in ins):
+                appenders.append(p)     # fills a field list handed to it (as such, or inside a collector struct), or returns one
             elif "ComplexProps" in _norm_ty(s["output"]):
                 readers.append(p)
         roles = {entry: "complexType"}
         ext = [p for p in appenders if "base" in _string_literals(F, p)]
         if len(ext) == 1:
             roles[ext[0]] = "extension"
-        for p in readers:
-            if ext and len(ext) == 1 and ext[0] in g.get(p, ()):
-                roles[p] = "complexContent"
+        callers = [p for p in readers + appenders if ext and len(ext) == 1 and p != ext[0] and ext[0] in g.get(p, ())]
+        # (the function that starts the extension importer: a reader, or a method of the collector that the reader delegates to)
+        for p in callers if len(callers) == 1 or all(p in readers for p in callers) else ():
+            roles[p] = "complexContent"
         direct = [p for p in appenders if p not in roles and any(p in g.get(r, ()) for r in readers + [entry])]
         if len(direct) == 1:
             roles[direct[0]] = "sequence"
